@@ -59,8 +59,13 @@ def _P_iter(K, n, first, generic_seed):
     rows = ref.interior_rows(K)
     if generic_seed is not None:
         rs = np.random.RandomState(generic_seed)
-        for _ in range(25):
-            yield rs.dirichlet(np.ones(K) * rs.choice([0.3, 1.0, 5.0]), size=n)
+        made = 0
+        while made < 25:
+            P = rs.dirichlet(np.ones(K) * rs.choice([0.3, 1.0, 5.0]), size=n)
+            if P.min() < 1e-9:          # entries below the clipping epsilon are outside the property's scope (genericity filter)
+                continue
+            made += 1
+            yield P
         return
     if n == 1:
         yield np.array([rows[first]])
